@@ -28,7 +28,7 @@ def gates(tier):
     return {'cheats_twin_credited': 2500, 'cheats_refused': 2500, 'honest_controls': 400,
             'restriction:blacklist': 100, 'restriction:blacklist:user_override': 15, 'restriction:whitelist': 150, 'restriction:whitelist_none': 100,
             'restriction:required': 100, 'restriction:forbidden': 150, 'restriction:instructor_var': 150,
-            'restriction:numbered': 100, 'restriction:suffix': 80, 'restriction:name': 150,
+            'restriction:numbered': 100, 'restriction:removed_constant': 60, 'restriction:suffix': 80, 'restriction:name': 150,
             'restriction:sibling': 60, 'restriction:sibling_via_sampler': 60, 'aborted_parse_before_cheat': 30, 'restriction:sum_blacklist': 80, 'partial_credit_cheats': 200, 'restriction_combinations': 400, 'restricted_grader_as_subgrader': 300, 'resubmissions': 2000}
 
 
@@ -257,7 +257,7 @@ def run_names(ctx):
     NAME_ERR = ('UndefinedVariable', 'UndefinedFunction', 'UnableToParse')
     for i in range(ctx.n(1600, 120000)):
         cls = rng.choice([FormulaGrader, MatrixGrader])
-        kind = rng.choice(['instructor_var', 'instructor_var', 'numbered', 'suffix', 'name', 'name'])
+        kind = rng.choice(['instructor_var', 'instructor_var', 'numbered', 'suffix', 'name', 'name', 'removed_constant'])
         ans_full, ans_part = 'x^2+1', '2*(x^2+1)'
         answers = ({'expect': ans_full, 'grade_decimal': 1}, {'expect': ans_part, 'grade_decimal': 0.5})
         target = rng.choice([ans_full, ans_part, 'x+7'])     # 'x+7' is a wrong answer: names must be rejected anyway
@@ -303,6 +303,21 @@ def run_names(ctx):
             ok_formula = tpl.format(A=ans_full, R=rng.choice(['a_{1}', 'a_{0}', 'a_{-3}', 'a_{12}']))
             judge_honest(ctx, 'numbered', restricted, ok_formula, wit)
             judge_name(ctx, 'numbered', twin, restricted, formula, NAME_ERR, dict(wit, bad_name=bad), None)
+        elif kind == 'removed_constant':
+            # a default constant the author took away (user_constants={'pi': None}) is an unknown name for students, whatever
+            # other options the grader carries
+            gone = rng.choice(['pi', 'e', 'i', 'j'])
+            opts = rng.choice([{}, {}, {'allow_inf': True}, {'allow_inf': True, 'tolerance': '1%'}, {'metric_suffixes': True},
+                               {'user_constants_extra': {'tau': 6.28}}, {'samples': 3}])
+            if cls is MatrixGrader:
+                opts = dict((k, v) for k, v in opts.items() if k != 'allow_inf')    # (matrix graders have no infinities)
+            opts = dict(opts)
+            consts = dict(opts.pop('user_constants_extra', {}))
+            twin = cls(answers=answers, variables=['x'], user_constants=dict(consts), **opts)
+            restricted = cls(answers=answers, variables=['x'], user_constants=dict(consts, **{gone: None}), **opts)
+            formula = tpl.format(A=target, R=gone)
+            judge_name(ctx, 'removed_constant', twin, restricted, formula, ('UndefinedVariable',),
+                       dict(wit, removed=gone, other_options=sorted(opts)), target != 'x+7')
         elif kind == 'suffix':
             restricted = cls(answers=answers, variables=['x'])
             twin = cls(answers=answers, variables=['x'], metric_suffixes=True)
